@@ -15,7 +15,12 @@ impl NetworkFilter {
     pub fn get_tokens(&self) -> (r: Vec<Vec<Hash>>)
         ensures r@.len() == tokens_spec(*self).len(), forall|g: int| 0 <= g < r@.len() ==> (#[trigger] r@[g])@ == tokens_spec(*self)[g]
     { unimplemented!() }
+    // contract of NetworkFilter::get_id (unit c04_ids): a hash of pattern, options and domains - NOT of the tag; the stored `id` field is the
+    // hash of the rule as written (set by the parser)
+    #[verifier::external_body]
+    pub fn get_id(&self) -> (r: Hash) ensures r == computed_id_spec(*self) { unimplemented!() }
 }
+pub uninterp spec fn computed_id_spec(f: NetworkFilter) -> Hash;
 
 //@EXTRACT src/network_filter_list.rs :: struct NetworkFilterList
 //@END
@@ -139,6 +144,94 @@ impl NetworkFilterList {
 //@ ENDLOOPEND
 //@END
 }
+
+// R5: `filter.get_tokens().into_iter().flatten().collect()` - all tokens of all groups
+pub open spec fn any_group_has(ts: Seq<Seq<Hash>>, t: Hash) -> bool { exists|g: int| 0 <= g < ts.len() && (#[trigger] ts[g]).contains(t) }
+#[verifier::external_body]
+fn vf_flat_tokens(filter: &NetworkFilter) -> (r: Vec<Hash>)
+    ensures forall|t: Hash| r@.contains(t) <==> any_group_has(tokens_spec(*filter), t)
+{ filter.get_tokens().into_iter().flatten().collect() }
+// the buckets looked at for a rule: those of its own tokens, or the fallback bucket 0 when it has none
+pub open spec fn looked_at(f: NetworkFilter, k: Hash) -> bool {
+    any_group_has(tokens_spec(f), k) || (k == 0 && forall|t: Hash| !any_group_has(tokens_spec(f), t))
+}
+// a rule with the same STORED id (the hash of everything the rule says: pattern, options, domains - and its tag) sits in bucket k
+pub open spec fn bucket_has_id(m: Index, k: Hash, id: Hash) -> bool {
+    m.contains_key(k) && exists|j: int| 0 <= j < m[k]@.len() && (#[trigger] m[k]@[j]).id == id
+}
+
+impl NetworkFilterList {
+//@EXTRACT src/network_filter_list.rs :: impl NetworkFilterList :: fn filter_exists
+//@ RET r
+//@ SAFETY C01.index.filter_exists.safety
+//@ SPEC
+    ensures
+        // "already there" means: a rule with this rule's stored id is filed under one of this rule's own tokens
+        r == exists|k: Hash| looked_at(*filter, k) && #[trigger] bucket_has_id(self.filter_map@, k, filter.id), // OBL C01.index.filter_exists
+//@ ENDSPEC
+//@ SUBST R5
+    filter.get_tokens().into_iter().flatten().collect()
+//@ WITH
+    vf_flat_tokens(filter)
+//@ ENDSUBST
+//@ BEFORE
+    if tokens.is_empty() {
+//@ AT
+        let ghost t0 = tokens@;
+//@ ENDBEFORE
+//@ AFTER
+            tokens.push(0)
+        }
+//@ AT
+        let ghost toks = tokens@;
+        proof {
+            assert(t0.len() > 0 ==> t0.contains(t0[0]));
+            assert(t0.len() == 0 ==> toks =~= seq![0u64]);
+            assert(t0.len() > 0 ==> toks == t0);
+            assert forall|k: Hash| looked_at(*filter, k) <==> toks.contains(k) by {
+                if t0.len() == 0 {
+                    assert(toks[0] == 0u64);
+                    assert forall|t: Hash| !any_group_has(tokens_spec(*filter), t) by { assert(!t0.contains(t)); }
+                } else {
+                    assert(any_group_has(tokens_spec(*filter), t0[0]));
+                }
+            }
+        }
+//@ ENDAFTER
+//@ SUBST R8
+    for token in tokens {
+//@ WITH
+    for token in it1: tokens
+        invariant
+            it1.seq() == toks,
+            forall|k: Hash| looked_at(*filter, k) <==> toks.contains(k),
+            forall|i: int| 0 <= i < it1.index() ==> !bucket_has_id(self.filter_map@, #[trigger] toks[i], filter.id), // OBL C01.index.filter_exists
+    {
+        proof { assert(toks[it1.index() as int] == token); assert(toks.contains(token)); }
+//@ ENDSUBST
+//@ SUBST R8
+    for saved_filter in filters {
+//@ WITH
+    for saved_filter in it2: filters
+        invariant
+            it2.seq().len() == filters@.len(), forall|j: int| 0 <= j < filters@.len() ==> *#[trigger] it2.seq()[j] == filters@[j],
+            self.filter_map@.contains_key(token) && *filters == self.filter_map@[token],
+            toks.contains(token), forall|k: Hash| looked_at(*filter, k) <==> toks.contains(k),
+            forall|j: int| 0 <= j < it2.index() ==> (#[trigger] filters@[j]).id != filter.id, // OBL C01.index.filter_exists
+    {
+//@ ENDSUBST
+//@ BEFORE
+    return true;
+//@ AT
+                        proof {
+                            assert(self.filter_map@[token]@[it2.index() as int].id == filter.id);
+                            assert(bucket_has_id(self.filter_map@, token, filter.id));
+                            assert(looked_at(*filter, token));
+                        }
+//@ ENDBEFORE
+//@END
+}
+
 
 // ---- the same choice in batch construction (R7 block lift out of NetworkFilterList::new) -----------------------
 pub open spec fn arc_val(a: Arc<NetworkFilter>) -> NetworkFilter { *a }
